@@ -405,10 +405,11 @@ def obligations(tier):
         P = [("n0", I), ("n1", I), ("n2", I), ("lin", I)]
         size = " * ".join(f"n{a}" for a in range(rank))
         pre = ["n0 >= 1 and n1 >= 1 and n2 >= 1", f"0 <= lin < {size}"]
-        obs.append(Ob(f"strides_r{rank}", P, pre, f"H.strides({rank}, n0, n1, n2, lin)", timeout=120, bounds=f"rank {rank}, sizes and linear index unbounded"))
-        if rank < 3 or thorough:
-          obs.append(Ob(f"successor_r{rank}", P, pre, f"H.successor({rank}, n0, n1, n2, lin)", timeout=180 if rank < 3 else 900, bounds=f"rank {rank}, sizes and linear index unbounded",
+        obs.append(Ob(f"strides_r{rank}", P, pre, f"H.strides({rank}, n0, n1, n2, lin)", timeout=120, bounds=f"rank {rank}, sizes and linear index unbounded",
                       canaries=("key_swap_square",) if rank == 3 else ()))  # fmt: skip
+        if rank < 3:
+          obs.append(Ob(f"successor_r{rank}", P, pre, f"H.successor({rank}, n0, n1, n2, lin)", timeout=180 if rank < 3 else 900, bounds=f"rank {rank}, sizes and linear index unbounded",
+                      canaries=()))  # fmt: skip
     FP = [("c0", I), ("c1", I), ("c2", I), ("c3", I), ("swap", Bo), ("kpos", I), ("two_out", Bo), ("ws", I),
           ("sa0", I), ("sa1", I), ("sb0", I), ("sb1", I), ("nk", I), ("rename_sel", I)]  # fmt: skip
     fams = [(1, 0), (2, 0), (1, 1), (2, 1), (0, 0)] + ([(2, 2)] if thorough else [])
@@ -420,11 +421,13 @@ def obligations(tier):
         call = "c0, c1, c2, c3, swap, kpos, two_out, ws, sa0, sa1, sb0, sb1, nk, rename_sel"
         if ra + rb >= 3 and not thorough:
             cpre = cpre + ["kpos in (-1, 1)", "ws <= 2"]
+        if ra + rb >= 4:
+            cpre = cpre + ["kpos in (-1, 1)", "ws <= 3", "sa0 <= 2 and sa1 <= 2 and sb0 <= 2 and sb1 <= 2"]
         obs.append(
             Ob(
                 f"family_{ra}_{rb}_str", FP,
-                cpre + sfix + ["-1 <= kpos <= 2", f"0 <= ws <= {17 if thorough else 5}", "rename_sel == 0"],
-                f"H.family('str', {ra}, {rb}, {call})", timeout=300,
+                cpre + sfix + ["-1 <= kpos <= 2", f"0 <= ws <= {8 if thorough else 5}", "rename_sel == 0"],
+                f"H.family('str', {ra}, {rb}, {call})", timeout=300 if not thorough else 1500,
                 bounds=f"inputs of rank {ra} and {rb}; per axis a choice of i / j / ':'; output order, internal axis position, 1-2 outputs, "
                 "whitespace variants: from_string denotes the written spec, str() canonical, from_string(str(m)) == m",
             )  # fmt: skip
@@ -433,7 +436,7 @@ def obligations(tier):
             Ob(
                 f"family_{ra}_{rb}_shape", FP,
                 cpre + spre + ["-1 <= kpos <= 2", "ws == 0 and not two_out and rename_sel == 0", f"1 <= nk <= {2 if thorough else 1}"],
-                f"H.family('shape', {ra}, {rb}, {call})", timeout=300,
+                f"H.family('shape', {ra}, {rb}, {call})", timeout=300 if not thorough else 1500,
                 bounds=f"same structures, sizes 1..{hi}: shape()/mask or ValueError (rank, zip, internal), output_key and input_keys over all linear indices",
             )  # fmt: skip
         )
@@ -441,7 +444,7 @@ def obligations(tier):
             Ob(
                 f"family_{ra}_{rb}_rewrite", FP,
                 cpre + sfix + ["-1 <= kpos <= 2", "ws == 0", "0 <= rename_sel <= 2"] + ([] if thorough else ["not two_out"]),
-                f"H.family('rewrite', {ra}, {rb}, {call})", timeout=300,
+                f"H.family('rewrite', {ra}, {rb}, {call})", timeout=300 if not thorough else 1500,
                 bounds="same structures, sizes 2: rename (each array in turn, absent name), add_axes (structure, round trip, denotation, duplicate axis)",
             )  # fmt: skip
         )
